@@ -18,12 +18,12 @@ CHECKS = {
     },
     "C20": {
         "runs": [
-            R(LAB, "^TestC20Limits", {"checks": 24, "timeout": 900}, {"checks": 300, "shards": 4, "timeout": 3000}),
+            R(LAB, "^TestC20Limits", {"checks": 36, "timeout": 900}, {"checks": 300, "shards": 4, "timeout": 3000}),
         ],
     },
     "C15": {
         "runs": [
-            R(LAB, "^TestC15Stall", {"checks": 20, "timeout": 900}, {"checks": 240, "shards": 8, "timeout": 3000}),
+            R(LAB, "^TestC15Stall", {"checks": 28, "timeout": 900}, {"checks": 240, "shards": 8, "timeout": 3000}),
         ],
     },
     "C11": {
